@@ -199,7 +199,8 @@ def search(prefix, maxlen, res, variants):
 
 
 # =================================================================== (b) corpora
-WORDS = ['a', ',', '&', '<', '"', "'", 'ä', '日', '#', '-LRB-', '*T*-1', 'b', '#7', '#12', '#1234']
+WORDS = ['a', ',', '&', '<', '"', "'", 'ä', '日', '#', '-LRB-', '*T*-1', 'b', '#7', '#12', '#1234',
+         '&amp;', 'cafe\u0301', '%', '%5', '-RSB-', '\u212b']
 LABELS = ['NP-SBJ-1', 'NP=2', 'S', 'VP-HD', 'PP', "AP'", 'APPR-', 'NX--3']
 
 
